@@ -59,6 +59,16 @@ func (p *C04) Prepare(env *Env, tier string, seed uint64) error {
 		c := &Case{Property: "C04", Kind: kind, Seed: seed, Run: len(p.cases), Labels: labels, Params: map[string]string{"mode": mode}}
 		parse := Step{Step: simrt.Step{Argv: []string{"text", "parse"}, Seed: r.U64(), Stdin: &simrt.Stream{Data: text, Plan: GenPlan(r)}}, Note: "parse"}
 		c.Steps = append(c.Steps, parse)
+		if !full && r.Chance(1, 5) {
+			// the same text as FILE argument (the oracle reads the text from step 0)
+			fp := Step{Step: simrt.Step{Argv: []string{"text", "parse", inPath}, Seed: r.U64(), Stdin: &simrt.Stream{Data: text},
+				Files: map[string]*simrt.FileSpec{inPath: {Data: text, Plan: GenPlan(r)}}}, Note: "parse-file"}
+			if r.Chance(1, 2) {
+				fp.Argv = []string{"text", "parse", "-"}
+				fp.Files = nil
+			}
+			c.Steps = append(c.Steps, fp)
+		}
 		if full {
 			p2 := Step{Step: simrt.Step{Argv: []string{"text", "parse"}, Seed: r.U64(), Stdin: &simrt.Stream{Data: text}, SchedPolicy: model.Pick(r, schedPolicies)}, Note: "parse-identity-delivery"}
 			c.Steps = append(c.Steps, p2)
@@ -167,6 +177,17 @@ func (p *C04) Prepare(env *Env, tier string, seed uint64) error {
 			mk("long-line", []string{"fault:F8:long-line"}, []byte(txt), "syllable", false)
 			p.nlong++
 		}
+	}
+	// more than a mebibyte of comments between two groups of chords: what
+	// comes after them is part of the piece
+	for _, n := range []int{1<<20 + 100, 1<<20 + 70000} {
+		pad := strings.Repeat("; a comment line among the chords ..........................................\n", n/76+1)
+		txt := "C[1] D[2]\n" + pad + "E[1]{txt=after the comments} F[4] G[1]\n"
+		c := &Case{Property: "C04", Kind: "long-line", Seed: seed, Run: len(p.cases), Labels: []string{"fault:F8:megabyte-of-comments"}, Params: map[string]string{"mode": "syllable"}}
+		c.Steps = append(c.Steps, Step{Step: simrt.Step{Argv: []string{"text", "parse"}, Seed: r.U64(), Stdin: &simrt.Stream{Data: []byte(txt), Plan: simrt.Plan{Chunks: []int{1 << 16}}}}, Note: "parse"})
+		c.Steps = append(c.Steps, Step{Step: simrt.Step{Argv: []string{"text", "conv", "syllable"}, Seed: r.U64(), Stdin: &simrt.Stream{Data: []byte(txt)}}, Note: "conv"})
+		p.cases = append(p.cases, c)
+		p.nlong++
 	}
 	// the stream breaks (read error) after a prefix: whatever the prefix is,
 	// the command must not print a tree for it
